@@ -66,6 +66,24 @@ func (s *Scenario) Hash() uint64 {
 	return h.Sum64()
 }
 
+// LoadScenarioFromReplay reads the scenario of a replay file.
+func LoadScenarioFromReplay(path string) (*Scenario, error) {
+	b, err := os.ReadFile(path)
+	if err != nil {
+		return nil, err
+	}
+	var rf struct {
+		Scenario *Scenario `json:"scenario"`
+	}
+	if err := json.Unmarshal(b, &rf); err != nil {
+		return nil, err
+	}
+	if rf.Scenario == nil {
+		return nil, fmt.Errorf("no scenario in %s", path)
+	}
+	return rf.Scenario, nil
+}
+
 // Violation is a failed check together with its minimised, replayable scenario.
 type Violation struct {
 	Prop     string    `json:"property"`
@@ -80,18 +98,18 @@ type Violation struct {
 
 // Acc accumulates coverage measurements of a batch of runs.
 type Acc struct {
-	Prop     string           `json:"property"`
-	Runs     int              `json:"runs"`
-	Evals    int64            `json:"evaluations"`
-	Steps    int64            `json:"sim_steps"`
-	Distinct map[uint64]bool  `json:"-"`
-	DistinctList []uint64     `json:"distinct"`
-	Samples  []any            `json:"samples"`
-	Probes   map[string]int64 `json:"probes"`
-	Faults   map[string]int64 `json:"faults"`
-	Hashes   map[int]uint64   `json:"run_hashes"` // run index -> event-log hash (determinism self-check)
-	Viol     []*Violation     `json:"violations"`
-	Trouble  []string         `json:"trouble"`
+	Prop         string           `json:"property"`
+	Runs         int              `json:"runs"`
+	Evals        int64            `json:"evaluations"`
+	Steps        int64            `json:"sim_steps"`
+	Distinct     map[uint64]bool  `json:"-"`
+	DistinctList []uint64         `json:"distinct"`
+	Samples      []any            `json:"samples"`
+	Probes       map[string]int64 `json:"probes"`
+	Faults       map[string]int64 `json:"faults"`
+	Hashes       map[int]uint64   `json:"run_hashes"` // run index -> event-log hash (determinism self-check)
+	Viol         []*Violation     `json:"violations"`
+	Trouble      []string         `json:"trouble"`
 }
 
 func NewAcc(prop string) *Acc {
